@@ -16,7 +16,8 @@ KNOWN = set()
 EXHAUSTIVE = True
 EXHAUSTIVE_SCOPE = ('all 2**6 presence/absence combinations of the six kinds '
                     'of target x {ordinary, reserved event} x {namespace has '
-                    'an unrelated handler or not} x {Server, AsyncServer, '
+                    '/ the catch-all namespace has / both have / neither has '
+                    'a handler for an unrelated event} x {Server, AsyncServer, '
                     'Client, AsyncClient} x {sync, coroutine targets (asyncio '
                     'classes)} with canonical names; names / arguments are '
                     'sampled by Hypothesis on top')
@@ -45,7 +46,7 @@ CLASSES = ['Server', 'AsyncServer', 'Client', 'AsyncClient']
 def cells():
     for bits in itertools.product([False, True], repeat=6):
         for reserved in (False, True):
-            for unrelated in (False, True):
+            for unrelated in (False, True, 'star', 'both'):
                 for cls in CLASSES:
                     for coro in ((False, True) if cls.startswith('Async')
                                  else (False,)):
@@ -168,8 +169,10 @@ def _run(case, socketio, cls, aio, server, loop):
         obj.on(event, mk('sh'), namespace='*')
     if 'sc' in present:
         obj.on('*', mk('sc'), namespace='*')
-    if case['unrelated']:
+    if case['unrelated'] in (True, 'both'):
         obj.on('unrelated_ev', mk('unrelated'), namespace=ns)
+    if case['unrelated'] in ('star', 'both'):
+        obj.on('unrelated_ev', mk('unrelated'), namespace='*')
     for kind, reg in (('cls', ns), ('scls', '*')):
         if kind in present:
             o = nsbase(reg)
@@ -265,7 +268,7 @@ def _is_f3(case, log):
     if case['cls'].endswith('Server'):
         return False
     p = set(case['present'])
-    ns_has = bool(p & {'h', 'hc'}) or case['unrelated']
+    ns_has = bool(p & {'h', 'hc'}) or case['unrelated'] in (True, 'both')
     return ns_has and bool(p & {'sh', 'sc'}) and 'h' not in p and not (
         'hc' in p and not case['reserved'])
 
@@ -274,7 +277,7 @@ def _labels(case):
     p = case['present']
     return {'cls': case['cls'], 'reserved': case['reserved'],
             'npresent': len(p),
-            'nontrivial': len(p) >= 2 or case['unrelated']}
+            'nontrivial': len(p) >= 2 or bool(case['unrelated'])}
 
 
 def classify(case, v):
